@@ -70,7 +70,7 @@ def type_calls(T, rnd, ids):
     return out
 
 
-FRESH = {"id", "begin_block/-", "begin_block_no_label/-", "begin_function/1/-/0/2", "decoration_group", "string/61", "ext_inst_import/61",
+FRESH = {"i_add/1/-/2/3", "load/1/-/2/-/-", "ext_inst/1/-/2/3/-", "id", "begin_block/-", "begin_block_no_label/-", "begin_function/1/-/0/2", "decoration_group", "string/61", "ext_inst_import/61",
          "variable/1/-/7/-", "function_parameter/1", "undef/1/-"}
 
 
@@ -150,7 +150,8 @@ def run(ctx):
                 calls.append(rnd.choice(["i_add/1/-/2/3", "load/1/-/2/-/-", "ext_inst/1/-/2/3/-"]))
             else:
                 calls.append(rnd.choice(["decoration_group", "string/61", "ext_inst_import/61", "begin_function/1/-/0/2", "end_function", "begin_block/-", "ret", "variable/1/-/7/-",
-                                         "begin_block_no_label/-", "begin_block_no_label/77", "begin_block/88", "function_parameter/1", "undef/1/-", "id"]))
+                                         "begin_block_no_label/-", "begin_block_no_label/77", "begin_block/88", "function_parameter/1", "undef/1/-", "id",
+                                         "pop_instruction", "pop_instruction", "i_add/1/-/2/3", "nop", "select_block/0", "select_function/0"]))
         r = "build " + (f"from:{start} " if start else "") + " ".join(calls)
         reqs.append(r)
         meta[r] = (start or 1, implicit_only)
@@ -214,6 +215,15 @@ def run(ctx):
                 return "two identical type declarations in a module whose types were all requested implicitly"
         return None
 
+    # ids handed out are never taken back: an instruction holding the latest id is popped (and possibly re-inserted), then more ids are
+    # requested
+    for start in (None, 9, 1000):
+        for mid in ("pop_instruction id", "pop_instruction i_add/1/-/2/3 id", "pop_instruction pop_instruction id undef/1/-",
+                    "nop pop_instruction pop_instruction id", "ret begin_block/- pop_instruction id", "pop_instruction insert_into_block/E/128;1;40;58:2,58:3 id"):
+            for first in ("i_add/1/-/2/3", "undef/1/-", "i_add/1/-/2/3 i_add/1/-/2/3"):
+                r = "build " + (f"from:{start} " if start else "") + f"begin_function/1/-/0/2 begin_block/- {first} {mid} ret end_function id"
+                reqs.append(r)
+                meta[r] = (start or 1, False)
     # `Builder::module_mut` (no model: judged on the implementation alone): whatever header the caller installs, the finished module's
     # bound is the id the next request would get — the history ends with `id`, so the bound must be that id + 1
     mm = []
